@@ -36,6 +36,29 @@ func genWorldCase(t *rapid.T) worldCase {
 	return c
 }
 
+// genC01Case: the shared histories, and in a third of the cases the hosting of one remote moves somewhere in the
+// middle: convergence is promised "over any remotes".
+func genC01Case(t *rapid.T) worldCase {
+	c := genWorldCase(t)
+	diverging := false
+	for _, a := range c.Actions {
+		// an identity edited on two machines diverges for good: after a move the two sides would publish unrelated
+		// heads at the new place and git-bug's fast-forward-only fetch refuses them (an error, not a loss)
+		diverging = diverging || a.Kind == "idforeign"
+	}
+	if rapid.IntRange(0, 2).Draw(t, "remoteMoves") == 0 && !diverging {
+		at := rapid.IntRange(3, len(c.Actions)).Draw(t, "moveAt")
+		mv := Action{Kind: "moveremote"}
+		if c.Remotes > 1 {
+			mv.Rem = rapid.IntRange(0, c.Remotes-1).Draw(t, "movedRemote")
+		}
+		out := append([]Action(nil), c.Actions[:at]...)
+		out = append(out, mv)
+		c.Actions = append(out, c.Actions[at:]...)
+	}
+	return c
+}
+
 // sameSetDifferentOrder compares, for every bug that two replicas both hold with the same SET of
 // operations, the order and the compiled snapshot. That is the antecedent of C01 ("each has received every
 // operation the other knows"): it does not need equal refs, and it is met in the middle of a history when
@@ -267,6 +290,9 @@ func runC01(tb report.TB, rep *report.Reporter, c worldCase) {
 	if w.GCs > 0 {
 		classes = append(classes, "git-gc-between-actions")
 	}
+	if w.Moves > 0 {
+		classes = append(classes, "a-remote-moved-to-a-new-empty-repository")
+	}
 	unequal := false
 	for _, s := range dedup(shapes) {
 		classes = append(classes, "merge:"+s)
@@ -302,7 +328,7 @@ func kindMultiset(w *World) string {
 }
 
 func TestC01Convergence(t *testing.T) {
-	Drive(t, "C01", genWorldCase, runC01)
+	Drive(t, "C01", genC01Case, runC01)
 }
 
 // ---------------------------------------------------------------- convergence as the users see it: through the cache
